@@ -56,11 +56,32 @@ Proof.
   - apply lex_tl. exact IHlstep.
 Qed.
 
+Lemma lstep_canc_mono : forall canc (l : list cellT) canc' k l',
+  lstep canc l canc' k l' -> canc = true -> canc' = true.
+Proof. intros canc l canc' k l' H. induction H; intros Hc; subst; simpl; auto. Qed.
+
+(* configurations: the client can leave once (first component), then the cells *)
+Definition cmeasure (c : configT) : list nat := (if cancelled c then 0 else 1) :: map mcell (cells c).
+
+Lemma step_measure : forall c c' : configT, step c c' -> lexlt (cmeasure c') (cmeasure c).
+Proof.
+  intros c c' [_ [Hs | [Hc [Hc' [_ Hcells]]]]]; unfold cmeasure.
+  - pose proof (lstep_measure _ _ _ _ _ Hs) as Hm.
+    destruct (cancelled c) eqn:E1; destruct (cancelled c') eqn:E2.
+    + apply lex_tl. exact Hm.
+    + (* a cancelled context stays cancelled *)
+      exfalso. pose proof (lstep_canc_mono _ _ _ _ _ Hs eq_refl). discriminate.
+    + apply lex_hd; [auto|]. rewrite !map_length.
+      apply lexlt_length in Hm. rewrite !map_length in Hm. exact Hm.
+    + apply lex_tl. exact Hm.
+  - rewrite Hc, Hc', Hcells. apply lex_hd; [auto|reflexivity].
+Qed.
+
 Lemma step_wf : well_founded (fun c' c : configT => step c c').
 Proof.
-  apply wf_incl with (R2 := fun c' c : configT => lexlt (map mcell (cells c')) (map mcell (cells c))).
-  - intros c' c [_ H]. eapply lstep_measure; eauto.
-  - apply (wf_inverse_image configT (list nat) lexlt (fun c => map mcell (cells c))). apply lexlt_wf.
+  apply wf_incl with (R2 := fun c' c : configT => lexlt (cmeasure c') (cmeasure c)).
+  - intros c' c H. apply step_measure. exact H.
+  - apply (wf_inverse_image configT (list nat) lexlt cmeasure). apply lexlt_wf.
 Qed.
 
 (* ------------------------------------------------------------------ invariants *)
@@ -222,10 +243,12 @@ Proof. intros c1 c2 H Hc. destruct H as [c | c1 c2 c3 [Hs _] _]; auto. Qed.
 
 Lemma inv_step : forall c c' : configT, inv c -> step c c' -> crashed c' = false -> inv c'.
 Proof.
-  intros c c' [HG [HC HH]] [_ Hs] Hk. rewrite Hk in Hs. unfold inv. split; [|split].
-  - eapply (nodes_pred_step (fun n => good_node n)); eauto.
-  - eapply chain_ok_step; eauto.
-  - eapply head_ok_step; eauto.
+  intros c c' [HG [HC HH]] [_ [Hs | [_ [_ [_ Hcells]]]]] Hk.
+  - rewrite Hk in Hs. unfold inv. split; [|split].
+    + eapply (nodes_pred_step (fun n => good_node n)); eauto.
+    + eapply chain_ok_step; eauto.
+    + eapply head_ok_step; eauto.
+  - unfold inv. rewrite Hcells. auto.
 Qed.
 
 Lemma inv_star : forall c c' : configT, star c c' -> inv c -> crashed c' = false -> inv c'.
@@ -234,19 +257,14 @@ Proof.
   apply IH; [|exact Hk]. eapply inv_step; eauto. eapply star_not_crashed_back; eauto.
 Qed.
 
-Lemma stuck_lstuck : forall c : configT, crashed c = false -> stuck c -> lstuck (cancelled c) (cells c).
-Proof.
-  intros c Hc HS canc' k l' Hl. apply (HS (mkConfig canc' k l')). split; [exact Hc|exact Hl].
-Qed.
-
 (* no goroutine is ever left behind, whatever the interleaving: a chain of good nodes can only stop
    completely finished -- unless the process has crashed *)
 Lemma good_chain_no_leak : forall c0 c : configT,
-  inv c0 -> star c0 c -> stuck c -> crashed c = true \/ all_done (cells c).
+  inv c0 -> star c0 c -> quiescent c -> crashed c = true \/ all_done (cells c).
 Proof.
   intros c0 c Hi Hst HS. destruct (crashed c) eqn:Hk; [left; reflexivity|right].
   pose proof (inv_star _ _ Hst Hi Hk) as [HG [HC HH]].
-  eapply stuck_all_done; eauto using stuck_lstuck.
+  eapply stuck_all_done; eauto.
   destruct (cells c) as [|p l]; [exact I|]. simpl in HH. intros s Ep. rewrite Ep in HH. exact HH.
 Qed.
 
@@ -254,9 +272,10 @@ Lemma nofault_star : forall c c' : configT, star c c' ->
   crashed c = false -> nodes_nofault (cells c) -> no_afault (cells c) ->
   crashed c' = false /\ nodes_nofault (cells c') /\ no_afault (cells c').
 Proof.
-  intros c c' H. induction H as [c | c1 c2 c3 [Hc Hs] Hst IH]; intros Hk HN HA; [auto|].
-  destruct (no_afault_step _ _ _ _ _ Hs HN HA) as [HA' Hk'].
-  apply IH; auto. eapply (nodes_pred_step (fun n => nofault_node n)); eauto.
+  intros c c' H. induction H as [c | c1 c2 c3 [Hc [Hs | [_ [_ [Hk2 Hcells]]]]] Hst IH]; intros Hk HN HA; [auto| |].
+  - destruct (no_afault_step _ _ _ _ _ Hs HN HA) as [HA' Hk'].
+    apply IH; auto. eapply (nodes_pred_step (fun n => nofault_node n)); eauto.
+  - apply IH; auto; rewrite Hcells; assumption.
 Qed.
 
 Lemma chain_ok_fresh : forall (p : cellT) (l : list cellT), Forall fresh_stage l -> chain_ok (p :: l).
@@ -284,7 +303,7 @@ Theorem chain_terminates : forall (rows : list M) (stages : list cellT),
   Forall fresh_stage stages ->
   let c0 := init_config rows stages in
   Acc (fun c' c : configT => step c c') c0 /\
-  forall c, star c0 c -> crashed c = false /\ (stuck c -> all_done (cells c)).
+  forall c, star c0 c -> crashed c = false /\ (quiescent c -> all_done (cells c)).
 Proof.
   intros rows stages HG HN HF c0. split; [apply step_wf|].
   intros c Hst.
@@ -302,7 +321,7 @@ Theorem chain_no_leak : forall (rows : list M) (stages : list cellT),
   Forall fresh_stage stages ->
   let c0 := init_config rows stages in
   Acc (fun c' c : configT => step c c') c0 /\
-  forall c, star c0 c -> stuck c -> crashed c = true \/ all_done (cells c).
+  forall c, star c0 c -> quiescent c -> crashed c = true \/ all_done (cells c).
 Proof.
   intros rows stages HG HF c0. split; [apply step_wf|].
   intros c Hst HS. eapply good_chain_no_leak; eauto. apply init_inv; assumption.
